@@ -29,10 +29,9 @@ pub type VerifierKey = CommitterKey;
 pub type Comm = Commitment;
 pub type Pt = Fr;
 //@use pcenv
-//@spec group_spec ipa_spec
-pub uninterp spec fn scp_coeffs(u: Seq<FS>) -> Seq<FS>;
+//@spec group_spec scp_spec ipa_spec
 impl SuccinctCheckPolynomial {
-    #[verifier::external_body] pub fn compute_coeffs(&self) -> (r: Vec<Fr>) ensures fviews(r@) == scp_coeffs(fviews(self.0@)) { unimplemented!() }
+//@stub from=ipa_coeffs.rs id=ipa.SuccinctCheckPolynomial.compute_coeffs vis=pub
 }
 // coefficient i of a dense polynomial (0 beyond its length)
 pub open spec fn cf(p: Seq<FS>, i: int) -> FS { if 0 <= i < p.len() { p[i] } else { f_zero() } }
